@@ -250,3 +250,119 @@ func zzC16TypedInput() {
 	}
 	vReach("end")
 }
+
+// ---------------------------------------------------------------- C16: schema derivation and caching (setSchema)
+//
+// The resolved schema a tool's arguments (or output) are checked against is the resolution of that tool's own schema:
+// the one derived from its Go type when it declared none, the *Schema it supplied, or the schema its raw/map form
+// denotes — whatever the shared SchemaCache already holds for the same Go type or for other schemas. When the schema is
+// derived from a pointer type, a usable (non-nil) zero value is returned on every path. The reflection-based inference
+// and the resolver are stubs: ForType yields a fresh schema per call, Resolve a fresh Resolved remembering its schema,
+// remarshal a fresh schema standing for the raw text.
+type zzSetSchemaEnv struct {
+	derived    []*jsonschema.Schema
+	resolvedOf map[*jsonschema.Resolved]*jsonschema.Schema
+	fromRaw    []*jsonschema.Schema
+}
+
+var zzSS *zzSetSchemaEnv
+
+func zzForType(t reflect.Type, opts *jsonschema.ForOptions) (*jsonschema.Schema, error) {
+	s := &jsonschema.Schema{Type: "object"}
+	zzSS.derived = append(zzSS.derived, s)
+	return s, nil
+}
+func zzResolve(s *jsonschema.Schema, opts *jsonschema.ResolveOptions) (*jsonschema.Resolved, error) {
+	r := &jsonschema.Resolved{}
+	zzSS.resolvedOf[r] = s
+	return r, nil
+}
+func zzRemarshalSchema(from, to any) error {
+	s := &jsonschema.Schema{Type: "object"}
+	zzSS.fromRaw = append(zzSS.fromRaw, s)
+	*(to.(**jsonschema.Schema)) = s
+	return nil
+}
+
+// zzOneSetSchema runs setSchema once for a tool whose schema field is of the given kind and checks the outcome.
+// kind: 0 none declared, 1 a *Schema (shared = the pointer an earlier tool also used), 2 raw/map form.
+func zzOneSetSchema(cache *SchemaCache, pointerType bool, kind int, shared *jsonschema.Schema, label string) {
+	var sfield any
+	var own *jsonschema.Schema
+	switch kind {
+	case 1:
+		own = shared
+		if own == nil {
+			own = &jsonschema.Schema{Type: "object"}
+		}
+		sfield = own
+	case 2:
+		sfield = map[string]any{"type": "object"}
+	}
+	var rfield *jsonschema.Resolved
+	nRaw, nDerived := len(zzSS.fromRaw), len(zzSS.derived)
+	var zero any
+	var err error
+	if pointerType {
+		zero, err = setSchema[*zzTypedIn](&sfield, &rfield, cache)
+	} else {
+		zero, err = setSchema[map[string]any](&sfield, &rfield, cache)
+	}
+	vAssert(err == nil && rfield != nil, label+".schema-set")
+	against := zzSS.resolvedOf[rfield]
+	switch kind {
+	case 0:
+		s, ok := sfield.(*jsonschema.Schema)
+		vAssert(ok && s != nil && against == s, label+".checked-against-the-schema-it-publishes")
+		isDerived := false
+		for _, d := range zzSS.derived {
+			if d == s {
+				isDerived = true
+			}
+		}
+		vAssert(isDerived, label+".undeclared-schema-is-derived-from-the-type")
+		if cache == nil {
+			vAssert(len(zzSS.derived) == nDerived+1, label+".derived-afresh-without-a-cache")
+		}
+	case 1:
+		vAssert(sfield == any(own) && against == own, label+".checked-against-its-own-schema")
+	case 2:
+		vAssert(len(zzSS.fromRaw) == nRaw+1 && against == zzSS.fromRaw[nRaw], label+".checked-against-its-own-raw-schema")
+	}
+	if pointerType && kind == 0 {
+		vAssert(zero != nil, label+".pointer-type-gets-a-usable-zero-value")
+	}
+	if !pointerType {
+		vAssert(zero == nil, label+".no-zero-substitute-for-value-types")
+	}
+}
+
+func zzC16SetSchema() {
+	zzSS = &zzSetSchemaEnv{resolvedOf: map[*jsonschema.Resolved]*jsonschema.Schema{}}
+	var cache *SchemaCache
+	if vBool("sharedCache") {
+		cache = NewSchemaCache()
+	}
+	shared := &jsonschema.Schema{Type: "object"}
+	pick := func(tag string) (bool, int, *jsonschema.Schema) {
+		ptr := vBool(tag + ".pointerType")
+		kind := vChoice(tag+".schemaKind", 3)
+		var sh *jsonschema.Schema
+		if kind == 1 && vBool(tag+".sameSchemaPointerAsOthers") {
+			sh = shared
+		}
+		return ptr, kind, sh
+	}
+	// earlier tools registered against the same cache (other tools of this server, or earlier servers sharing it)
+	n := vChoice("earlierTools", 3)
+	for i := 0; i < n; i++ {
+		p, k, sh := pick(string([]byte{'e', byte('0' + i)}))
+		zzOneSetSchema(cache, p, k, sh, "C16.schema.earlier")
+	}
+	p, k, sh := pick("t")
+	zzOneSetSchema(cache, p, k, sh, "C16.schema")
+	if cache != nil && n > 0 {
+		vReach("warm-cache")
+	}
+	vReach("end")
+}
